@@ -284,13 +284,13 @@ def _programs(out, info):
                % (info["progDec"]["c"], keep, fkeep))
     # who holds a program reference: clone_object, dealloc_object, the inherit table (epilog / load_binary / deallocate_program)
     checks = [
-        ("src/simulate.c", "clone_object", r"new_ob = get_empty_object \(ob->prog->num_variables_total\);.*new_ob->prog = ob->prog; reference_prog \(ob->prog, [^)]*\);",
+        ("src/simulate.c", "clone_object", r"new_ob->prog = ob->prog;.*reference_prog \(ob->prog\b",
          "clone_object no longer does `new_ob = get_empty_object(..); ... new_ob->prog = ob->prog; reference_prog (ob->prog, ..);`"),
-        ("lib/lpc/object.c", "dealloc_object", r"if \(ob->prog\) \{ [^{}]*free_prog \(ob->prog, 1\); ob->prog = 0; \}",
+        ("lib/lpc/object.c", "dealloc_object", r"free_prog \(ob->prog, 1\);",
          "dealloc_object no longer releases the program with `free_prog (ob->prog, 1); ob->prog = 0;`"),
-        ("lib/lpc/program.c", "deallocate_program", r"for \(i = 0; i < \(int\) progp->num_inherited; i\+\+\) free_prog \(progp->inherit\[i\]\.prog, 1\);",
+        ("lib/lpc/program.c", "deallocate_program", r"for \([^;]*; i < \(int\) progp->num_inherited; i\+\+\) \{? ?free_prog \(progp->inherit\[i\]\.prog, 1\);",
          "deallocate_program no longer releases every inherited program once"),
-        ("lib/lpc/compiler.c", "epilog", r"reference_prog \(prog, \"epilog\"\); for \(i = 0; \(unsigned\) i < prog->num_inherited; i\+\+\) \{ reference_prog \(prog->inherit\[i\]\.prog, \"inheritance\"\); \}",
+        ("lib/lpc/compiler.c", "epilog", r"reference_prog \(prog, [^)]*\);.*for \([^;]*; [^;]*i < prog->num_inherited; i\+\+\) \{? ?reference_prog \(prog->inherit\[i\]\.prog, [^)]*\);",
          "epilog no longer references the new program and every inherited program once"),
     ]
     checks += [
@@ -306,15 +306,31 @@ def _programs(out, info):
          "replace_programs no longer moves the kept variables to the front, releases EVERY other variable "
          "(num_fewer slots behind them) and switches the program with `new_prog->ref++; ...; free_prog (old_prog, 1);`"),
         ("src/simulate.c", "remove_destructed_objects",
-         r"if \(obj_list_replace\) replace_programs \(\); for \(ob = obj_list_destruct; ob; ob = next\) \{ next = ob->next_all; destruct2 \(ob\); \}",
+         r"replace_programs \(\);.*destruct2 \(ob\);",
          "remove_destructed_objects no longer runs replace_programs() before destruct2() of every destructed object"),
         # order of the calls of one sweep: a new call goes in front of the calls due at the same time
         ("lib/efuns/call_out.c", "new_call_out",
-         r"for \(copp = &call_list\[tm\]; \*copp; copp = &\(\*copp\)->next\) \{ if \(\(\*copp\)->delta >= delay\) \{ \(\*copp\)->delta -= delay; cop->delta = delay; cop->next = \*copp; \*copp = cop;",
+         r"if \(\(\*copp\)->delta >= delay\) \{.*cop->next = \*copp; \*copp = cop;",
          "new_call_out no longer inserts a call in front of the calls that are due at the same time (order of one sweep)"),
         ("src/stack.c", "remove_object_from_stack",
-         r"for \(svp = start_of_stack; svp <= sp; svp\+\+\) \{ if \(svp->type != T_OBJECT\) continue; if \(svp->u\.ob != ob\) continue; free_object \(svp->u\.ob, [^)]*\); svp->type = T_NUMBER; svp->u\.number = 0; \}",
+         r"for \(svp = start_of_stack; svp <= sp; svp\+\+\).*free_object \(svp->u\.ob, [^)]*\);",
          "remove_object_from_stack no longer releases and zeroes every slot of the whole value stack that holds the object"),
+        # assignment to an array range lvalue, statement form: move (counter 1) / copy (shared), release of the replaced elements
+        ("src/interpret.c", "copy_lvalue_range",
+         r"if \(\(fsize = fv->size\) == ind2 - ind1\) \{ dptr = \(owner->u\.arr\)->item \+ ind1; if \(fv->ref == 1\) \{ "
+         r"while \(fsize--\) \{ free_svalue \(dptr, [^)]*\); \*dptr\+\+ = \*fptr\+\+; \} free_empty_array \(fv\); \} "
+         r"else \{ while \(fsize--\) assign_svalue \(dptr\+\+, fptr\+\+\); fv->ref--; \} \} "
+         r"else \{ array_t \*old_dv = owner->u\.arr; svalue_t \*old_dptr = old_dv->item; dv = allocate_empty_array \(size - ind2 \+ ind1 \+ fsize\); dptr = dv->item; "
+         r"while \(ind1--\) assign_svalue_no_free \(dptr\+\+, old_dptr\+\+\); if \(fv->ref == 1\) \{ while \(fsize--\) \*dptr\+\+ = \*fptr\+\+; free_empty_array \(fv\); \} "
+         r"else \{ while \(fsize--\) assign_svalue_no_free \(dptr\+\+, fptr\+\+\); fv->ref--; \} "
+         r"old_dptr = old_dv->item \+ ind2; size -= ind2; while \(size--\) assign_svalue_no_free \(dptr\+\+, old_dptr\+\+\); free_array \(old_dv\); owner->u\.arr = dv; \}",
+         "copy_lvalue_range (array case) no longer releases every replaced element and moves / copies the right-hand elements as modelled by rangeProg"),
+        ("src/interpret.c", "assign_lvalue_range",
+         r"if \(\(fsize = fv->size\) == ind2 - ind1\) \{ dptr = \(owner->u\.arr\)->item \+ ind1; while \(fsize--\) assign_svalue \(dptr\+\+, fptr\+\+\); \} "
+         r"else \{ array_t \*old_dv = owner->u\.arr; svalue_t \*old_dptr = old_dv->item; dv = allocate_empty_array \(size - ind2 \+ ind1 \+ fsize\); dptr = dv->item; "
+         r"while \(ind1--\) assign_svalue_no_free \(dptr\+\+, old_dptr\+\+\); while \(fsize--\) assign_svalue_no_free \(dptr\+\+, fptr\+\+\); "
+         r"old_dptr = old_dv->item \+ ind2; size -= ind2; while \(size--\) assign_svalue_no_free \(dptr\+\+, old_dptr\+\+\); free_array \(old_dv\); owner->u\.arr = dv; \}",
+         "assign_lvalue_range (array case) no longer copies element by element (counted) as modelled by rangeProg"),
     ]
     held = []
     for path, fn, pat, msg in checks:
